@@ -283,8 +283,11 @@ def tb_lines(kind, ql, trace, rev):
     # the reversal: positions below i and above j are in their final order, the middle still in traceback order
     A(rev, 'chain-done', f"forall k int, k2 int {{succ(k, k2)}} :: 0 <= k && k2 == k + 1 && k2 < len(aln) && (k2 < i || k > j) ==> proving(succ(k, k2)) && {fp('aln[k]','a.end')} == {fp('aln[k2]','a.start')} && {fp('aln[k]','b.end')} == {fp('aln[k2]','b.start')}")
     A(rev, 'chain-todo', f"forall k int, k2 int {{succ(k, k2)}} :: i <= k && k2 == k + 1 && k2 <= j ==> proving(succ(k, k2)) && {fp('aln[k2]','a.end')} == {fp('aln[k]','a.start')} && {fp('aln[k2]','b.end')} == {fp('aln[k]','b.start')}")
-    A(rev, 'chain-joint', f"i > 0 && i <= j ==> proving(succ(i-1, i)) && proving(succ(j, j+1)) && {fp('aln[i-1]','a.end')} == {fp('aln[j]','a.start')} && {fp('aln[i-1]','b.end')} == {fp('aln[j]','b.start')} && {fp('aln[i]','a.end')} == {fp('aln[j+1]','a.start')} && {fp('aln[i]','b.end')} == {fp('aln[j+1]','b.start')}")
-    A(rev, 'chain-met', f"i > 0 && i == j + 1 ==> proving(succ(i-1, i)) && proving(succ(j, j+1)) && {fp('aln[j]','a.end')} == {fp('aln[i]','a.start')} && {fp('aln[j]','b.end')} == {fp('aln[i]','b.start')}")
+    # the joints between the reversed ends and the middle, and the meeting point: said for all index pairs with the
+    # positions as arithmetic guards (no equality between index terms has to reach the congruence closure)
+    ab = lambda x, y: f"{fp('aln['+x+']','a.end')} == {fp('aln['+y+']','a.start')} && {fp('aln['+x+']','b.end')} == {fp('aln['+y+']','b.start')}"
+    A(rev, 'chain-joint', f"forall k int, k2 int {{aln[k], aln[k2]}} :: i > 0 && i <= j && 0 <= k && k < len(aln) && 0 <= k2 && k2 < len(aln) && ((k == i - 1 && k2 == j) || (k == i && k2 == j + 1)) ==> proving(succ(i-1, i)) && proving(succ(j, j+1)) && {ab('k','k2')}")
+    A(rev, 'chain-met', f"forall k int, k2 int {{aln[k], aln[k2]}} :: i > 0 && i == j + 1 && k == j && k2 == i && 0 <= k && k2 < len(aln) ==> proving(succ(i-1, i)) && proving(succ(j, j+1)) && {ab('k','k2')}")
     return "\n".join(out) + "\n"
 def tb_ensures(kind, ql):
     f = opt_name(kind, ql)
